@@ -11,6 +11,7 @@ from . import r_c06 as Z
 from . import r_ptg as G
 from . import r_fmt as Q
 from . import r_c11 as D
+from . import r_witness as N
 
 
 def part(fn, **kw):
@@ -47,9 +48,9 @@ def registry():
         "dependencies (zip, quick-xml, encoding_rs, codepage); time / memory constants",
         [X.r_eof, W.r_rangepre] + ([M.r_chase, Z.r_mir] if __import__('os').environ.get('CALAMIR_C06_WIP') else []))
     R["C07"] = _p(
-        "Decides: the write footprint of every public read method of the four reader structs is limited to the archive cursor and designated setters/loaders, and no reader stores a cursor (R-FRAME); every Sheets method forwards to the same method of the wrapped reader (R-DELEG); worksheet_range_at & co use n itself (R-AT); worksheets() goes through worksheet_range or the very field it returns (R-WS); unknown names reach WorksheetNotFound (R-NOTFOUND); From<DataRef> for Data preserves variants (R-TAB-FROM).",
+        "Decides: the write footprint of every public read method of the four reader structs is limited to the archive cursor and designated setters/loaders, and no reader stores a cursor (R-FRAME); every Sheets method forwards to the same method of the wrapped reader (R-DELEG); worksheet_range_at & co use n itself (R-AT); worksheets() goes through worksheet_range or the very field it returns (R-WS); unknown names reach WorksheetNotFound (R-NOTFOUND); From<DataRef> for Data preserves variants (R-TAB-FROM); a zip lacking the format's mandatory part is rejected so that auto-detection cannot pick the wrong reader (R-AUTODETECT); a borrowed range / cell reader keeps the workbook exclusively borrowed (compile_fail witnesses with compiling twins, R-WITNESS).",
         "equality of values across calls beyond the frame condition (zip / XML determinism is trusted)",
-        [W.r_frame, S.r_deleg, S.r_at, S.r_ws, S.r_notfound, T.r_tab_from, W.r_autodetect])
+        [W.r_frame, S.r_deleg, S.r_at, S.r_ws, S.r_notfound, T.r_tab_from, W.r_autodetect, N.r_witness])
     R["C08"] = _p(
         "Decides: options.header_row has one writer and is re-read on every call (R-FRAME); the lazy filter keeps rows >= n and pads at row n iff needed (R-TIGHT); Range::range is only reached with start <= end established (R-RANGEPRE); Sheets::with_header_row delegates (R-DELEG).",
         "value equality between the eager (xls, ods) and lazy (xlsx, xlsb) implementations",
